@@ -58,16 +58,24 @@ def run_manual(sc, params):
 def work(shard):
     kind, items = shard
     out = {"runs": 0, "violations": [], "n_violations": 0, "names": {}, "samples": []}
+    if kind == "pairs":
+        return work_pairs(items)
+    prev = None
+    last_fd = None
     with gen.Scratch() as sc:
         for params in items:
             f, name = (run_cli if kind == "cli" else run_manual)(sc, params)
+            hist = [list(h) for h in (last_fd, prev) if h is not None]
+            prev = params
+            if params[-1]:
+                last_fd = params
             out["runs"] += 1
             if name is not None:
                 out["names"].setdefault(kind + ":" + name, []).append(list(params))
             if f:
                 out["n_violations"] += 1
                 if len([c for c in out["violations"] if c["klass"] == f[0]]) < 2:
-                    out["violations"].append({"kind": "params", "klass": f[0], "input": {"entry": kind, "params": list(params)}, "config": {},
+                    out["violations"].append({"kind": "params", "klass": f[0], "input": {"entry": kind, "params": list(params), "earlier_calls_in_this_process": hist}, "config": {},
                                               "observed": f[1], "expected": f[2], "explanation": f[3]})
     if items:
         out["samples"].append({"entry": kind, "params": list(items[0])})
@@ -76,10 +84,35 @@ def work(shard):
 
 RULE = ("prob_to_str(k/100) for k = 1..99 (value computed as k/100 and parsed from the text '0.kk'); roberta_generator.main() in a scratch directory for "
         "every k in each of the four probability positions, all 99^2 (robot, light) pairs, and the full product {1,28,29,57,58,99}^4 x seed {0,7} x "
-        "sizes {1x1,2x3} x max reward {1,6} x force-down; the manual entry point for every k in each of its three positions and a product; the "
+        "sizes {1x1,2x3} x max reward {1,6} x force-down; the manual entry point for every k in each of its three positions and a product; every ordered pair of 5 parameter sets called in one process; the "
         "created path must parse back to exactly the parameters and the map parameters -> name must be injective (dictionary over all runs); "
         "non-trivial = every run (each is a distinct accepted whole-percent parameter set)")
 ASSUME = ["file-name grammar: robot_<seed>_w<w>_l<l>_r<r>_rb<k>_lb<k>_tb<k>_lt<k>[_force_down].py and manual_robot_w.._l.._r.._rb.._lb.._tb.._[force_down].py"]
+
+
+PAIR_SETS = [(0, 1, 1, 6, 10, 10, 10, 30, False), (0, 1, 1, 6, 10, 10, 10, 30, True), (3, 2, 3, 1, 29, 57, 58, 1, False),
+             (3, 3, 2, 1, 29, 57, 58, 1, True), (7, 1, 4, 2, 99, 1, 50, 99, False)]
+
+
+def work_pairs(items):
+    """history leg: every ordered pair (and the triple a, b, a) of calls of main() in ONE process; each file name must state
+    the parameters of the call that created it, whatever was called before"""
+    out = {"runs": 0, "violations": [], "n_violations": 0, "names": {}, "samples": []}
+    for a, b in items:
+        with gen.Scratch() as sc:
+            for k, params in enumerate((a, b, a)):
+                f, name = run_cli(sc, params)
+                out["runs"] += 1
+                if f:
+                    out["n_violations"] += 1
+                    if len([c for c in out["violations"] if c["klass"] == f[0]]) < 2:
+                        out["violations"].append({"kind": "params", "klass": f[0],
+                                                  "input": {"entry": "cli", "params": list(params), "earlier_calls_in_this_process": [list(x) for x in (a, b, a)[:k]]},
+                                                  "config": {}, "observed": f[1], "expected": f[2],
+                                                  "explanation": "after the calls %r in the same process: %s" % ([list(x) for x in (a, b, a)[:k]], f[3])})
+                    break
+    out["samples"].append({"entry": "cli pairs", "pair": [list(items[0][0]), list(items[0][1])]})
+    return out
 
 
 def merge_names(a, b):
@@ -138,7 +171,8 @@ def run(ctx):
     for i in range(ctx.jobs):
         if manual[i::ctx.jobs]:
             shards.append(("manual", manual[i::ctx.jobs]))
-    par.merge_special = None
+    pairs = [(a, b) for a in PAIR_SETS for b in PAIR_SETS]
+    shards.append(("pairs", pairs))
     tot = {"runs": 0, "violations": list(direct), "n_violations": len(direct), "names": {}, "samples": []}
     import multiprocessing as mp
     res = par.run_shards(work_nomerge, shards, ctx.jobs)
@@ -161,7 +195,7 @@ def run(ctx):
                                           "observed": name, "expected": "distinct names",
                                           "explanation": "parameter sets %r and %r share the file %s" % (distinct[0], distinct[1], name)})
     cov = {"states": tot["runs"] + 198, "transitions": tot["runs"] + 198, "traces_validated_against_impl": tot["runs"] + 198,
-           "evaluations": tot["runs"] + 198, "distinct_nontrivial": tot["runs"], "cli_runs": len(cli), "manual_runs": len(manual),
+           "evaluations": tot["runs"] + 198, "distinct_nontrivial": tot["runs"], "cli_runs": len(cli), "manual_runs": len(manual), "ordered_call_pairs_in_one_process": len(pairs),
            "prob_to_str_calls": 198, "distinct_names": len(tot["names"]), "rule": RULE, "exhaustive": not res.get("skipped_shards"),
            "samples": tot["samples"][:4]}
     return {"coverage": cov, "violations": tot["violations"], "assumptions": ASSUME}
@@ -177,6 +211,16 @@ def replay(case):
         k = i["params"][0]
         bad = [v for v in (k / 100, float("0.%02d" % k)) if G.prob_to_str(v) != str(k)]
         return "prob_to_str(%r) != %r" % (bad[0], str(k)) if bad else None
+    if i.get("earlier_calls_in_this_process") and "other" not in i:
+        with gen.Scratch() as sc:
+            f, name = (run_cli if i["entry"] == "cli" else run_manual)(sc, tuple(i["params"]))
+            if f:
+                return f[3]
+        with gen.Scratch() as sc:
+            for h in i["earlier_calls_in_this_process"]:
+                (run_cli if i["entry"] == "cli" else run_manual)(sc, tuple(h))
+            f, name = (run_cli if i["entry"] == "cli" else run_manual)(sc, tuple(i["params"]))
+            return ("after earlier calls %r: %s" % (i["earlier_calls_in_this_process"], f[3])) if f else None
     with gen.Scratch() as sc:
         names = []
         for params in [i["params"]] + ([i["other"]] if "other" in i else []):
